@@ -36,7 +36,7 @@ THEOREMS = ["Pfl.ENFA.toDet_isSome",
 
 def generate(rng, tier):
     while True:
-        spec = F.gen_fa(rng)
+        spec = F.gen_fa(rng, allow_via_tf=True)
         yield {"fa": spec, "wseed": rng.randrange(1 << 30)}
 
 
@@ -68,6 +68,31 @@ def run_case(case, drv):
     if st != "ok":
         res.tag("build_" + str(fa))
         return res
+    if spec.get("via_tf"):
+        # the transition function was filled first and handed to the constructor: the automaton must answer as
+        # its twin built with add_transition (two runs of the real code certify a difference)
+        res.tag("via_transition_function")
+        twin_spec = dict(spec, via_tf=False, prechurn=[], churn=[], churn_query=False)
+        st, twin = outcome(lambda: F.build(twin_spec))
+        if st == "ok":
+            words = F.words_upto(list(spec["symvals"]), 3)[:40]
+
+            def sig(x):
+                return {"accepts": [x.accepts(w) for w in words], "copy": [x.copy().accepts(w) for w in words],
+                        "det": [x.to_deterministic().accepts(w) for w in words],
+                        "noeps": [x.remove_epsilon_transitions().accepts(w) for w in words] if hasattr(x, "remove_epsilon_transitions") else None,
+                        "min": [x.minimize().accepts(w) for w in words],
+                        "empty": x.is_empty(), "states": sorted(str(s.value) for s in x.states),
+                        "symbols": sorted(str(s.value) for s in x.symbols)}
+            a, b = outcome(lambda: sig(fa), limit=8.0), outcome(lambda: sig(twin), limit=8.0)
+            res.evals += 1
+            if a != b and "timeout" not in (a[0], b[0]):
+                diff = [k for k in (a[1] if a[0] == "ok" else {}) if b[0] == "ok" and a[1][k] != b[1][k]] or [a[0], b[0]]
+                res.violation("constructor_transition_function", "an automaton whose transition function was given to "
+                              "the constructor answers differently from the same automaton built with add_transition: %s" % diff,
+                              detail={"spec": {k: spec[k] for k in ("cls", "svals", "symvals", "starts", "finals", "delta")},
+                                      "differs_in": diff})
+                return res
     scodes, ycodes = F.Codes(spec["svals"]), F.Codes(spec["symvals"])
     A = F.extract(fa, scodes, ycodes)
     names = [str(v) for v in scodes.values]
